@@ -4,6 +4,7 @@ import io
 import json
 import os
 import re
+import sys
 
 from pydiffx.errors import DiffXParseError
 from pydiffx.options import SpecVersion
@@ -174,6 +175,15 @@ class DiffXReader(object):
                 except KeyError:
                     raise DiffXParseError(
                         'Expected section "%s" to have a length option'
+                        % section_id,
+                        linenum=linenum)
+
+                if (not isinstance(length, int) or
+                    length < 1 or
+                    length > sys.maxsize):
+                    raise DiffXParseError(
+                        'Expected the length option for section "%s" to be '
+                        'a positive number of bytes'
                         % section_id,
                         linenum=linenum)
 
